@@ -4,6 +4,10 @@ from ..report import Report
 from . import designlevel, pywire
 
 
+def rng_small(k):
+    return [40, 120, 300][k % 3]
+
+
 def main(tier, replay=None):
     rep = Report("C01", tier)
     seed = common.seed()
@@ -37,6 +41,27 @@ def main(tier, replay=None):
             cases.append(c)
             for f in gen.features(t):
                 rep.feature(f)
+    # --- step-level binding (informational, never a verdict): the recorded chunk / enter / leave
+    # sequence of real encode() and decode() calls is replayed through the ACTIONS of Codec.tla
+    step_info = {"available": rec.available}
+    if rec.available:
+        scases = []
+        with common.Scratch("c01s") as scratch:
+            for k in range(40 if tier == "quick" else 400):
+                prog, rng = gen.rand_case(seed, 900000 + k, max_bits=rng_small(k))
+                t = prog["rtype"]
+                c = pywire.PyCase("c01-steps-%d" % k, prog, [gen.gen_value(rng, t, "ones"), gen.gen_value(rng, t, "rand")])
+                pywire.run_case(c, scratch, want=("encode", "decode", "steps"), recorder=rec)
+                scases.append(c)
+        straces = [{"id": c.cid, "t": gen.export_type(c.prog["rtype"]), "mode": s["mode"], "v": s["v"],
+                    "bytes": s["bytes"], "steps": s["steps"]} for c in scases for s in c.steps]
+        if straces:
+            sv, sr = tlc.validate_traces("CodecTrace", "CodecTrace.cfg", straces)
+            rep.add_tlc(sr, "step-level trace validation through Codec's actions (informational)")
+            bad = [(tr["id"], tr["mode"], why) for tr, (ok, why) in zip(straces, sv) if not ok]
+            step_info.update({"runs": len(straces), "events": sum(len(tr["steps"]) for tr in straces),
+                              "runs_not_following_the_machine": len(bad), "first": bad[:3]})
+    rep.cov["step_level_binding"] = step_info
     traces = [pywire.trace_of(c) for c in cases]
     verdicts, r = tlc.validate_traces("WireTrace", "WireTrace.cfg", traces)
     rep.add_tlc(r, "trace-validation")
